@@ -519,7 +519,23 @@ def _str_split(interp, s, sep=None, maxsplit=-1):
     raise Unsupported(f'str.split: more than {SPLIT_MAX} fields')
 
 
+def _str_format(interp, s, *args, **kw):
+    c = interp.assumed.get('str.format')
+    s = models_str(s)
+    if c is None or kw or len(args) != 1 or is_sym(s):
+        raise Unsupported('str.format with symbolic arguments (needs an assumed contract)')
+    return c(interp, s, args[0])
+
+
+def models_str(s):
+    if isinstance(s, SymStr):
+        t = z3.simplify(s.term)
+        return z3str_to_py(t) if z3.is_string_value(t) else s
+    return s
+
+
 STR_METHODS = {
+    'format': _str_format,
     'split': _str_split,
     'startswith': _str_startswith,
     'endswith': _str_endswith,
